@@ -213,6 +213,18 @@ func c11Sessions(c *Ctx) {
 			}
 			model[urlKey(u)] = w
 			byKey[urlKey(u)] = u
+			if r.IntN(5) == 0 {
+				// the plain and the TLS endpoint of one host are two servers (same host and path, other scheme)
+				twin := *u
+				twin.Scheme = map[string]string{"http": "https", "https": "http"}[u.Scheme]
+				if _, dup := model[urlKey(&twin)]; !dup {
+					if err := t.upsert(&twin, roundrobin.Weight(1)); err == nil {
+						model[urlKey(&twin)] = 1
+						byKey[urlKey(&twin)] = &twin
+						c.Count("scheme_twins_in_pool", 1)
+					}
+				}
+			}
 		}
 		removeAny := func(u *url.URL) {
 			if err := t.remove(u); err != nil && t.rb != nil {
@@ -230,10 +242,16 @@ func c11Sessions(c *Ctx) {
 			return map[string]any{"codec": codec.desc, "target": kind, "pool": poolDesc(), "script": script}
 		}
 		// do one request; returns handler key (or ""), status, fresh cookie value (or "")
+		cookieLines := 0
 		do := func(cookie string, has bool) (string, int, string, bool) {
 			req := httptest.NewRequest("GET", "http://client.test/", nil)
 			if has {
-				req.AddCookie(&http.Cookie{Name: "aff", Value: cookie})
+				if cookieLines++; cookieLines%3 == 0 {
+					// cookies may arrive on several Cookie lines; the affinity cookie is not on the first one
+					req.Header.Add("Cookie", "theme=dark; lang=en")
+				}
+				ck := &http.Cookie{Name: "aff", Value: cookie}
+				req.Header.Add("Cookie", ck.String())
 			}
 			rec := httptest.NewRecorder()
 			before := len(seen)
@@ -254,6 +272,7 @@ func c11Sessions(c *Ctx) {
 			return key, rec.Code, fresh, got
 		}
 		// 1. mint
+		_ = cookieLines
 		s0, code, v0, got := do("", false)
 		script = append(script, "mint")
 		if s0 == "" || code != 200 || !got {
